@@ -119,3 +119,26 @@ func (pl *PanicListing) BoundsPanicsAt(file string, line int) []string {
 func (pl *PanicListing) PanicsAt(file string, line int) []string {
 	return pl.ByLine[file][line]
 }
+
+// IndexPanicsAt / SlicePanicsAt: the bounds-panic calls of one kind on a line.
+// An index expression compiles to runtime.panicIndex*, a slice expression to
+// runtime.panicSlice*; a line that carries both kinds is judged per kind.
+func (pl *PanicListing) IndexPanicsAt(file string, line int) []string {
+	var out []string
+	for _, k := range pl.ByLine[file][line] {
+		if strings.HasPrefix(k, "panicIndex") {
+			out = append(out, k)
+		}
+	}
+	return out
+}
+
+func (pl *PanicListing) SlicePanicsAt(file string, line int) []string {
+	var out []string
+	for _, k := range pl.ByLine[file][line] {
+		if strings.HasPrefix(k, "panicSlice") {
+			out = append(out, k)
+		}
+	}
+	return out
+}
